@@ -189,6 +189,60 @@ def kv_dict(type_name: str, items: list) -> HDict:
     return d
 
 
+def dispatch_shapes(env, special: dict, olk, repeated) -> list:
+    """Behavioural dispatch table of PrettyPrinter._format: for every keyword that needs its own writer
+    (the grammar's keyword-introduced block rules, one object-list key, one singleton block, one
+    repeated keyword) the lines written for a representative value, judged against the shape the
+    grammar reads back.  Returns [(keyword, ok, description)]."""
+    from . import layout as _l
+
+    I = env.interp(allow_fork=False)
+    mk = lambda: models.printer(I, quote='"', indent=0, end_comment=False)
+    out = []
+
+    def text(x):
+        return pai.as_sstr(x).describe()
+
+    for kw, info in sorted(special.items()):
+        if kw in ("metadata", "validation", "values", "connectionoptions"):
+            val, owner = kv_dict(kw, [("akey", _l.word("v"))]), "layer"
+            want = lambda ls, kw=kw: len(ls) == 3 and text(ls[0]) == kw.upper() and text(ls[2]) == "END" and text(ls[1]).startswith('"akey" ')
+        elif kw == "projection":
+            val, owner = [_l.word("p")], "layer"
+            want = lambda ls: len(ls) == 3 and text(ls[0]) == "PROJECTION" and text(ls[2]) == "END" and text(ls[1]).startswith('"')
+        elif kw in ("points", "pattern"):
+            val, owner = [(SNum.sym("a", None, None), SNum.sym("b", None, None))], ("feature" if kw == "points" else "style")
+            want = lambda ls, kw=kw: len(ls) == 3 and text(ls[0]) == kw.upper() and text(ls[2]) == "END"
+        elif kw == "config":
+            d = HDict()
+            d["akey"] = _l.word("v")
+            val, owner = d, "map"
+            want = lambda ls: len(ls) == 1 and text(ls[0]).startswith("CONFIG ")
+        else:
+            raise AnalysisError(f"no representative value for the special block {kw}")
+        try:
+            lines = block_lines(I, mk, owner, [(kw, val)])
+        except AnalysisError as ex:
+            out.append((kw, False, f"not written: {ex}"))
+            continue
+        out.append((kw, bool(want(lines)), " / ".join(text(x) for x in lines)))
+    # an object list, a singleton block, a repeated keyword
+    extra = []
+    if "classes" in olk:
+        extra.append(("classes", "layer", [kv_dict("class", [("name", _l.word("cn"))])], lambda ls: len(ls) == 3 and text(ls[0]) == "CLASS" and text(ls[2]) == "END"))
+    extra.append(("web", "map", kv_dict("web", [("template", _l.word("t"))]), lambda ls: len(ls) == 3 and text(ls[0]) == "WEB" and text(ls[2]) == "END"))
+    if "processing" in repeated:
+        extra.append(("processing", "layer", [_l.word("p1"), _l.word("p2")], lambda ls: len(ls) == 2 and all(text(x).startswith("PROCESSING ") for x in ls)))
+    for kw, owner, val, want in extra:
+        try:
+            lines = block_lines(I, mk, owner, [(kw, val)])
+        except AnalysisError as ex:
+            out.append((kw, False, f"not written: {ex}"))
+            continue
+        out.append((kw, bool(want(lines)), " / ".join(text(x) for x in lines)))
+    return out
+
+
 class PrinterModel:
     def __init__(self, env: models.Env):
         self.env = env
